@@ -4,7 +4,10 @@ mod common;
 mod asm;
 mod base;
 mod compile;
+mod cerr;
 mod conv;
+mod reader;
+mod repl;
 mod rich;
 mod syms;
 
@@ -21,6 +24,9 @@ fn main() {
         "base" => base::run(&rest),
         "compile" => compile::run(&rest),
         "conv" => conv::run(&rest),
+        "reader" => reader::run(&rest),
+        "cerr" => cerr::run(&rest),
+        "repl" => repl::run(&rest),
         "syms" => syms::run(&rest),
         other => {
             eprintln!("cvh: unknown sub-command {other}");
